@@ -657,6 +657,7 @@ func (s *Svc) Rev(ctx context.Context, tok string, k int, which int) (string, er
 type Client struct {
 	Echo            func(ctx context.Context, tok string, pad string) (string, error)
 	EchoR           func(ctx context.Context, tok string, pad string) (string, error) `retry:"true" rpc_method:"S.Echo"`
+	EchoNR          func(ctx context.Context, tok string, pad string) (string, error) `retry:"false" rpc_method:"S.Echo"` // explicitly not retried
 	NoCtx           func(tok string) (string, error)
 	NoCtxR          func(tok string) (string, error) `retry:"true" rpc_method:"S.NoCtx"`
 	HoldHard        func(ctx context.Context, tok string, pad string) (string, error)
